@@ -20,7 +20,7 @@ CONSTANTS Rule,        \* margin rule of the mechanism ("max" = the code)
 VARIABLES lay, a
 vars == <<lay, a>>
 
-Nat == [i \in 1..57 |-> IF i <= 25 THEN i - 1 ELSE IF i <= 43 THEN 24 + 2 * (i - 25) ELSE 60 + 3 * (i - 43)]
+NatG == [i \in 1..57 |-> IF i <= 25 THEN i - 1 ELSE IF i <= 43 THEN 24 + 2 * (i - 25) ELSE 60 + 3 * (i - 43)]
 C0  == [i \in 1..57 |-> 20 + ((7 * i) % 11)]
 C1  == [i \in 1..57 |-> 1 + ((3 * i) % 5)]
 Pattern == <<2, 2, 4, 4, 6, 8, 10, 14, 18>>
@@ -51,44 +51,48 @@ OverSet == {[fam |-> "over", oc |-> <<s + 21, s + 23, s + 24, s + 25>>, ow2 |-> 
 All == (IF "geo" \in Families THEN GeoSet ELSE {}) \cup (IF "rev" \in Families THEN RevSet ELSE {})
        \cup (IF "gap" \in Families THEN GapSet ELSE {}) \cup (IF "phot" \in Families THEN PhotSet ELSE {})
        \cup (IF "two" \in Families THEN TwoSet ELSE {}) \cup (IF "over" \in Families THEN OverSet ELSE {})
-InRange(l) == 4 * l.oc[1] - l.ow2[1] >= 4 * Nat[1] /\ 4 * l.oc[Len(l.oc)] + l.ow2[Len(l.oc)] <= 4 * Nat[57]
+InRange(l) == 4 * l.oc[1] - l.ow2[1] >= 4 * NatG[1] /\ 4 * l.oc[Len(l.oc)] + l.ow2[Len(l.oc)] <= 4 * NatG[57]
 Layouts == {l \in All : InRange(l)}
 
 Init == lay \in Layouts /\ a \in ASet
-Next == UNCHANGED vars
+Next == FALSE /\ UNCHANGED vars
 Spec == Init /\ [][Next]_vars
 
 \* ---- observation of the layout: data = floor(binned model at ARef) + (j mod 3) - 1, sigma = 1 + (j mod 2)
-RefBin(j) == LET r == GBinnedRaw(Nat, LGSpectrum(C0, C1, ARef), lay.oc[j], lay.ow2[j]) IN r[1] \div r[2]
+RefBin(j) == LET r == GBinnedRaw(NatG, LGSpectrum(C0, C1, ARef), lay.oc[j], lay.ow2[j]) IN r[1] \div r[2]
 Data == [j \in 1..Len(lay.oc) |-> RefBin(j) + (j % 3) - 1]
 Sig  == [j \in 1..Len(lay.oc) |-> 1 + (j % 2)]
 F    == LGSpectrum(C0, C1, a)
-HDef == LGHalfChi2(Nat, F, lay.oc, lay.ow2, Data, Sig)
-Mech == LGMech(Nat, F, lay.oc, lay.ow2, Data, Sig, Rule)
-Lo   == LGLo(Nat, lay.oc, Rule)
-Hi   == LGHi(Nat, lay.oc, Rule)
-Inside == LGInsideWindow(Nat, lay.oc, lay.ow2)
+TDef == LGChiTerms(NatG, F, lay.oc, lay.ow2, Data, Sig)       \* chi2 terms by the definition; h = (sum of them) / 2
+Mech == LGMech(NatG, F, lay.oc, lay.ow2, Data, Sig, Rule)
+Lo   == LGLo(NatG, lay.oc, Rule)
+Hi   == LGHi(NatG, lay.oc, Rule)
+\* licensed layouts: the clip window of the code, [cmin - W, cmax + W] with W the widest mid-point width of the
+\* centres, meets the clipping contract (a function of the layout and the native grid only)
+Inside == LGCovers(NatG, lay.oc, lay.ow2, LGLo(NatG, lay.oc, "max"), LGHi(NatG, lay.oc, "max"))
+\* a simple sufficient condition: every bin lies 1.5 (largest) native spacings inside that window
+WindowLemma == LGInsideWindow(NatG, lay.oc, lay.ow2) => Inside
 Judged == Licensed => Inside
 
 \* ---- the clauses
 \* the likelihood handed to the sampler is the Gaussian of the model binned on the FULL grid
-LikelihoodOfFullGrid == Judged => (Mech.k = "num" /\ Mech.h = HDef)
+LikelihoodOfFullGrid == Judged => (Mech.k = "num" /\ Mech.t = TDef)
 \* the clipping contract holds for the judged layouts ...
-ClipCoversBins == Judged => LGCovers(Nat, lay.oc, lay.ow2, Lo, Hi)
+ClipCoversBins == Judged => LGCovers(NatG, lay.oc, lay.ow2, Lo, Hi)
 \* ... and the contract is what makes the mechanism exact (any rule, any layout)
-CoverLemma == LGCovers(Nat, lay.oc, lay.ow2, Lo, Hi) => (Mech.k = "num" /\ Mech.h = HDef)
-Observed == LGObserved(Nat, lay.oc, lay.ow2)
+CoverLemma == LGCovers(NatG, lay.oc, lay.ow2, Lo, Hi) => (Mech.k = "num" /\ Mech.t = TDef)
+Observed == LGObserved(NatG, lay.oc, lay.ow2)
 \* every layout of the licensed families lies inside the clip window (so all of them are judged)
 FamiliesInside == lay.fam # "over" => Inside
-FitsInv  == Fits(HDef) /\ Fits(Mech.h)
+FitsInv  == \A j \in 1..Len(TDef) : Fits(TDef[j])
 \* non-vacuity (must be REFUTED): the clip never removes anything / no layout has widths varying more than 2x
 ClipKeepsAll == Lo = 1 /\ Hi = 57
 NoGrowth     == ~LGGrowth2(lay.ow2)
 
 Emit == Export =>
     PrintT(<<"VEC", ToJson([fam |-> lay.fam, oc |-> lay.oc, ow2 |-> lay.ow2, a |-> a, data |-> Data, sig |-> Sig,
-                            h |-> HDef, inside |-> Inside, lo |-> Lo, hi |-> Hi,
+                            z2 |-> TDef, binned |-> LGBinnedSeq(NatG, F, lay.oc, lay.ow2), inside |-> Inside, lo |-> Lo, hi |-> Hi,
                             growth2 |-> LGGrowth2(lay.ow2), gap |-> LGHasGap(lay.oc, lay.ow2),
                             overlapping |-> LGOverlapping(lay.oc, lay.ow2),
-                            nat |-> Nat, c0 |-> C0, c1 |-> C1])>>)
+                            nat |-> NatG, c0 |-> C0, c1 |-> C1])>>)
 =============================================================================
